@@ -19,6 +19,11 @@ class Outside(Exception):
     pass
 
 
+class Lossy(Exception):
+    """a 16-bit word read from the payload is converted to a type that cannot hold all its values"""
+    pass
+
+
 def _clean(f):
     return {k: v for k, v in f.items() if v or k == 1}
 
@@ -77,6 +82,22 @@ class ReaderEval:
     # ------------------------------------------------------------ expressions: list of (form, pins)
     def ev(self, e, env, pins, g, depth):
         e0 = e
+        # conversions on the way: a length / count word (unsigned, 16 bits) must not pass through a narrower or a signed 16-bit type
+        x = e
+        lossy_t = None
+        while isinstance(x, dict) and x.get("k") == "cast":
+            t = x.get("t") or {}
+            if x.get("ck") == "IntegralCast" and t.get("k") == "int" and ((t.get("bits") or 64) < 16 or ((t.get("bits") or 64) == 16 and t.get("sg"))):
+                lossy_t = t
+            x = x["e"]
+        if lossy_t is not None:
+            inner = self.ev(x, env, pins, g, depth)
+            for f, _ in inner:
+                if any(str(s) == "N" or str(s).startswith("W[") for s in f if s != 1 and f[s]):
+                    raise Lossy("the word read from the payload (%s) is converted to `%s`: values that type cannot hold (>= %d) arrive changed, the position "
+                                "computed from it lies somewhere else — for large counts in front of the payload" %
+                                (fmt(f), lossy_t.get("s"), 1 << ((lossy_t.get("bits") or 16) - (1 if lossy_t.get("sg") else 0))))
+            return inner
         e = strip_all_casts(e)
         cv = const_value(e)
         if cv is not None and (e.get("t") or {}).get("k") != "ptr":
@@ -343,6 +364,10 @@ def interface_reader_positions(fb, res, rid, prefix=""):
             continue  # private helpers may be folded into the public readers
         try:
             alts = ev.call(g, [], {}, 0)
+        except Lossy as e:
+            n += 1
+            res.bad(rid, "%sInterfacePayload::%s:position" % (prefix, nm), g.loc, "InterfacePayload::%s: %s" % (nm, e))
+            continue
         except Outside as e:
             raise Broken("InterfacePayload::%s: position outside the reader vocabulary: %s" % (nm, e))
         bad = None
